@@ -145,6 +145,28 @@ def check_one(m):
         shutil.rmtree(d, ignore_errors=True)
 
 
+_DESELECT = None
+
+
+def deselect_args():
+    """node ids of the tests that fail on the unchanged tree in this sandbox (collected - baseline stable_pass): with -x they would stop every run"""
+    global _DESELECT
+    if _DESELECT is None:
+        base = json.load(open('/root/.vp/BASELINE.json'))
+        stable = set(base['stable_pass'])
+        r = subprocess.run(['/venv/bin/python', '-m', 'pytest', '--collect-only', '-q', '-p', 'no:cacheprovider'], cwd='/repo', capture_output=True, text=True,
+                           env=dict(os.environ, PYTHONDONTWRITEBYTECODE='1'))
+        ids = [l.strip() for l in r.stdout.splitlines() if '::' in l]
+        out = []
+        for i in ids:
+            path, _, name = i.partition('::')
+            key = path[:-3].replace('/', '.') + '::' + name
+            if key not in stable:
+                out += ['--deselect', i]
+        _DESELECT = out
+    return _DESELECT
+
+
 def suite_one(m):
     d = tempfile.mkdtemp(prefix='automut_suite_')
     try:
@@ -157,7 +179,7 @@ def suite_one(m):
         env = dict(os.environ, PYTHONPATH=d, PYTHONDONTWRITEBYTECODE='1')
         t = time.time()
         try:
-            r = subprocess.run(['/venv/bin/python', '-m', 'pytest', '-q', '-x', '-p', 'no:cacheprovider', '--timeout=600', '-n', '3', '--no-header', '-q'],
+            r = subprocess.run(['/venv/bin/python', '-m', 'pytest', '-q', '-x', '-p', 'no:cacheprovider', '--timeout=600', '-n', '3', '--no-header', '-q'] + deselect_args(),
                                cwd=d, env=env, capture_output=True, text=True, timeout=2400)
             tail = (r.stdout or '').strip().splitlines()[-3:]
             rc = r.returncode
